@@ -6,6 +6,7 @@
 -/
 import Puan.Model.Lex
 import Puan.Props.C13
+import Puan.Props.C04
 namespace Puan.C14
 open Puan Lex
 
@@ -261,5 +262,138 @@ end configurator
 example :
     let cs : List Col := [⟨3, 6, 1⟩, ⟨2, 3, -1⟩, ⟨1, 1, -1⟩, ⟨1, 1, -1⟩]
     dominates cs = true ∧ totAbove 3 cs = 0 ∧ dAt 3 cs = 1 ∧ tot cs = 1 := by decide
+
+/-! ## The default restructuring does not change what a rule means
+
+`cc.Any(*alts, default=d)` is held as `Any(d, H)` with the helper `H = Any(non-default alternatives)` tagged −2, and
+`cc.Xor(*alts, default=d)` replaces the "at least one" half of the Xor by such a `cc.Any`.  Whatever the default, the rule
+still says "at least one" / "exactly one" of its alternatives (over alternatives whose values are not negative — items are
+boolean): the defaults only enter the objective (theorems above), never the feasible set. -/
+
+section ccsemantics
+open P
+
+theorem evalPt_setDflt (σ) (p : P) (d) : evalPt σ (setDflt p d) = evalPt σ p := by
+  cases p <;> simp [setDflt, evalPt]
+
+theorem evalPt_setPrio (σ) (p : P) (q) : evalPt σ (setPrio p q) = evalPt σ p := by
+  cases p <;> simp [setPrio, evalPt]
+
+theorem sum_filter_split (σ) (f : Bool × P → Bool) : ∀ l : List (Bool × P),
+    sumPt σ (l.map (·.2)) = sumPt σ ((l.filter f).map (·.2)) + sumPt σ ((l.filter (fun x => !f x)).map (·.2))
+  | [] => by simp [sumPt]
+  | x :: l => by
+      have ih := sum_filter_split σ f l
+      cases hf : f x <;> simp [List.filter_cons, hf, sumPt, ih] <;> omega
+
+theorem sum_nonneg_of (σ) : ∀ l : List P, (∀ k ∈ l, 0 ≤ evalPt σ k) → 0 ≤ sumPt σ l
+  | [], _ => by simp [sumPt]
+  | k :: l, h => by
+      have := sum_nonneg_of σ l (fun x hx => h x (by simp [hx]))
+      have := h k (by simp)
+      simp only [sumPt]; omega
+
+/-- `cc.Any` with or without a default: true iff at least one alternative is true -/
+theorem evalPt_mkCcAny (σ) (args : List (Bool × P)) (dflt) (oid) (hnn : ∀ k ∈ args.map (·.2), 0 ≤ evalPt σ k) :
+    evalPt σ (mkCcAny args dflt oid) = if sumPt σ (args.map (·.2)) ≥ 1 then 1 else 0 := by
+  have hp : evalPt σ (setDflt (mkAny args oid .ccAny) dflt) = if sumPt σ (args.map (·.2)) ≥ 1 then 1 else 0 := by
+    rw [evalPt_setDflt, C04.evalPt_mkAny]
+  unfold mkCcAny
+  cases dflt with
+  | nil => exact hp
+  | cons d ds =>
+      obtain ⟨d1, d2⟩ := d
+      simp only
+      split
+      · exact hp
+      · split
+        · exact hp
+        · rw [evalPt_setDflt, C04.evalPt_mkAny]
+          simp only [List.map_append, List.map_cons, List.map_nil, P.sumPt_append, sumPt, evalPt_setPrio, C04.evalPt_mkAny]
+          have hsplit := sum_filter_split σ (fun x : Bool × P => x.2.isLeaf && x.2.id == d1) args
+          have h1 : 0 ≤ sumPt σ ((args.filter (fun x : Bool × P => x.2.isLeaf && x.2.id == d1)).map (·.2)) :=
+            sum_nonneg_of σ _ (fun k hk => by
+              obtain ⟨x, hx, rfl⟩ := List.mem_map.1 hk
+              exact hnn _ (List.mem_map.2 ⟨x, (List.mem_filter.1 hx).1, rfl⟩))
+          have h2 : 0 ≤ sumPt σ ((args.filter (fun x : Bool × P => !(x.2.isLeaf && x.2.id == d1))).map (·.2)) :=
+            sum_nonneg_of σ _ (fun k hk => by
+              obtain ⟨x, hx, rfl⟩ := List.mem_map.1 hk
+              exact hnn _ (List.mem_map.2 ⟨x, (List.mem_filter.1 hx).1, rfl⟩))
+          rw [hsplit]
+          split <;> split <;> split <;> omega
+
+theorem sum_replaceFirst (σ) (pred : P → Bool) (f : P → P) : ∀ ks : List P,
+    (∀ k ∈ ks, pred k = true → evalPt σ (f k) = evalPt σ k) → sumPt σ (replaceFirst ks pred f) = sumPt σ ks
+  | [], _ => by simp [replaceFirst]
+  | k :: r, h => by
+      unfold replaceFirst
+      split
+      · rename_i hp
+        simp only [sumPt, h k (by simp) hp]
+      · simp only [sumPt, sum_replaceFirst σ pred f r (fun x hx => h x (by simp [hx]))]
+
+/-- the node `Xor(*args)` builds: value 2 over its two halves (in the order their ids sort) -/
+theorem mkXor_node (args : List (Bool × P)) (oid) (cls) :
+    ∃ i b m, mkXor args oid cls = .node i b 1 2
+      (sortById [mkAtLeast 1 (orderArgs args) none none, mkAtMost 1 (orderArgs args) none]) m := by
+  have hd : distinctCount [(false, mkAtLeast 1 (orderArgs args) none none), (false, mkAtMost 1 (orderArgs args) none)] = 2 :=
+    C04.distinct_two _ _ (C04.xor_halves_differ _)
+  have ho : orderArgs [(false, mkAtLeast 1 (orderArgs args) none none), (false, mkAtMost 1 (orderArgs args) none)] =
+      [mkAtLeast 1 (orderArgs args) none none, mkAtMost 1 (orderArgs args) none] := by simp [orderArgs]
+  unfold mkXor mkAll
+  generalize mkAtLeast 1 (orderArgs args) none none = L at *
+  generalize mkAtMost 1 (orderArgs args) none = M at *
+  rw [ho, hd]
+  unfold mkAtLeast
+  cases varOf oid with
+  | none => exact ⟨_, _, _, rfl⟩
+  | some x => exact ⟨_, _, _, rfl⟩
+
+/-- `cc.Xor` with or without a default: true iff exactly one alternative is true -/
+theorem evalPt_mkCcXor (σ) (args : List (Bool × P)) (dflt) (oid) (hnn : ∀ k ∈ args.map (·.2), 0 ≤ evalPt σ k) :
+    evalPt σ (mkCcXor args dflt oid) = if sumPt σ (args.map (·.2)) = 1 then 1 else 0 := by
+  have hX : evalPt σ (setDflt (mkXor args oid .ccXor) dflt) = if sumPt σ (args.map (·.2)) = 1 then 1 else 0 := by
+    rw [evalPt_setDflt, C04.evalPt_mkXor]
+  unfold mkCcXor
+  cases dflt with
+  | nil => exact hX
+  | cons d ds =>
+      obtain ⟨i, b, m, hx⟩ := mkXor_node args oid .ccXor
+      rw [hx] at hX ⊢
+      simp only [setDflt] at hX ⊢
+      rw [← hX]
+      simp only [evalPt]
+      rw [sum_replaceFirst]
+      intro k hk hp
+      have hk' : k ∈ [mkAtLeast 1 (orderArgs args) none none, mkAtMost 1 (orderArgs args) none] :=
+        (sortById_perm _).mem_iff.1 hk
+      simp only [List.mem_cons, List.not_mem_nil, or_false] at hk'
+      rcases hk' with rfl | rfl
+      · -- the "at least one" half becomes a cc.Any over the same alternatives
+        have hkids : (mkAtLeast 1 (orderArgs args) none none).kids = sortById (orderArgs args) := by simp [mkAtLeast, P.kids]
+        rw [hkids]
+        have hmap : ((sortById (orderArgs args)).map (fun c => ((false : Bool), c))).map (·.2) = sortById (orderArgs args) := by
+          generalize sortById (orderArgs args) = l
+          induction l with
+          | nil => rfl
+          | cons x l ih => simp [ih]
+        have hnn' : ∀ k ∈ ((sortById (orderArgs args)).map (fun c => ((false : Bool), c))).map (·.2), 0 ≤ evalPt σ k := by
+          rw [hmap]
+          intro k hk
+          exact hnn k ((C04.orderArgs_perm args).mem_iff.1 ((sortById_perm _).mem_iff.1 hk))
+        rw [evalPt_mkCcAny σ _ _ _ hnn', hmap, evalPt_mkAtLeast]
+        simp [sgnOf, P.sumPt_sort]
+      · -- the "at most one" half has threshold −1: it is not the one that is replaced
+        simp [mkAtMost, mkAtLeast, isLeaf] at hp
+
+
+/-- non-vacuity: the hypothesis of `evalPt_mkCcXor` holds for boolean items under a 0/1 assignment -/
+example : ∀ k ∈ ([((false : Bool), P.leaf "a" ⟨0,1⟩), (false, P.leaf "b" ⟨0,1⟩), (false, P.leaf "c" ⟨0,1⟩)]).map (·.2),
+    0 ≤ evalPt (fun i => if i = "b" then 1 else 0) k := by
+  intro k hk
+  simp only [List.map_cons, List.map_nil, List.mem_cons, List.not_mem_nil, or_false] at hk
+  rcases hk with rfl | rfl | rfl <;> simp [evalPt]
+
+end ccsemantics
 
 end Puan.C14
